@@ -150,8 +150,11 @@ class Url:
             # If unable to convert last part into port,
             # treat entire data as host
             host, port = raw, None
-        # patch up invalid ipv6 scenario
         rhost = host.decode('utf-8')
+        # An IPv6 literal with only one of its brackets cannot be interpreted
+        if (rhost[0] == '[') != (rhost[-1] == ']'):
+            raise HttpProtocolException('Invalid IPv6 literal %r' % raw)
+        # patch up invalid ipv6 scenario
         if COLON.decode('utf-8') in rhost and \
                 rhost[0] != '[' and \
                 rhost[-1] != ']':
